@@ -199,12 +199,17 @@ def input_handling(func):
         suffix = kwargs.pop("suffix", "")
 
         # rename all input dims to unique names to avoid conflicts in xr.apply_ufunc
+        used_dims = set(phi.dims) | set(theta.dims) | set(target_theta_levels.dims)
         temp_dim = "temp_dim_target"
+        while temp_dim in used_dims:
+            temp_dim += "_"
         target_theta_levels = target_theta_levels.rename({target_dim: temp_dim})
 
         # The phi_dim doesnt matter for the final product, so just rename to
         # # something unique to avoid conflicts in apply_ufunc
         temp_dim2 = "temp_unique"
+        while temp_dim2 in used_dims:
+            temp_dim2 += "_"
         phi = phi.rename({phi_dim: temp_dim2})
 
         # Execute function with temporary names
